@@ -11,6 +11,7 @@ import (
 type Signal = syscall.Signal
 type SysProcAttr = syscall.SysProcAttr
 type Errno = syscall.Errno
+type WaitStatus = syscall.WaitStatus
 
 const (
 	SIGTERM = syscall.SIGTERM
